@@ -54,6 +54,8 @@ class HookScript:
             if what == 'raise':
                 raise RuntimeError('scripted hook failure %s' % self.hname)
             return what == 'true'
+        if self.outcome == 'exit':
+            raise SystemExit(3)            # a hook that calls sys.exit()
         if self.outcome == 'raise':
             # alternately with and without a message (`raise RuntimeError`, a failing assert)
             if sum(self.world.hook_calls.values()) % 2:
@@ -93,6 +95,9 @@ def new_world(spec):
     k = w.kernel
     k.kill_latency = spec.get('kill_latency', 0.0)
     k.spawn_fail = set(spec.get('spawn_fail', []))
+    k.spawn_fail_from = spec.get('spawn_fail_from')
+    if spec.get('spawn_fail_errno'):
+        k.spawn_fail_errno = int(spec['spawn_fail_errno'])
 
     def beh_for(argv, n):
         tag = argv[0] if argv else None
